@@ -18,6 +18,8 @@ vars == <<c, phase>>
 
 Family ==
        [kind : {"benign"}, i : 1..Len(OpSeq), n : 0..6, v : 1..3, d : {2}]
+  \* operand counts around 2^8 and 2^9 (a count kept in a narrow integer would wrap)
+  \cup [kind : {"benign"}, i : 1..Len(OpSeq), n : {255, 256, 257, 258, 259, 512, 513}, v : {1}, d : {2}]
   \cup [kind : {"arb"}, i : 1..Len(OpSeq), n : 0..6, v : 1..Len(T3), d : {1}]
   \cup [kind : {"unary"}, i : 1..Len(OpSeq), n : {1}, v : 1..Len(X3), d : {2}]
   \cup [kind : {"place"}, i : 1..Len(OpSeq), n : {0}, v : 1..18, d : {2}]
@@ -103,5 +105,5 @@ ExportCases ==
                  [zlax |-> FALSE, logseq |-> TRUE, relonly |-> Scope(c) = <<>>])
     ELSE Export(<<c.kind, c.i, c.n, c.v>>, RuleOf(c), DataOf(c), Outcome(c), Scope(c),
                 \* C03 pins acceptance (Ok / Err); the value belongs to the operator's own property
-                [zlax |-> FALSE, logseq |-> TRUE, okonly |-> TRUE, own |-> OwnerOf(OpSeq[c.i])])
+                [zlax |-> FALSE, logseq |-> TRUE, okonly |-> TRUE, own |-> OwnerOf(OpSeq[c.i]), noev |-> c.n > 6])
 =============================================================================
